@@ -18,7 +18,7 @@ SYNC = '<SyncProtocol as CKBProtocolHandler>::received::{closure#0}'
 # ---- synchronizer ------------------------------------------------------------------------------------------------
 INV_MB = ('the in-memory matched-blocks map is only ever loaded from the earliest stored record (every Peers::add_matched_blocks call takes '
           'get_earliest_matched_blocks()), and both are cleared together under the matched-blocks lock (C17.L1)')
-add(SYNC, r'^panic:assert_failed$', 'assert_eq!(blocks.len(), db_blocks.len()): ' + INV_MB + '; both sides are de-duplicated by hash', ['call:Peers::all_matched_blocks_downloaded'])
+add(SYNC, r'^panic:assert_failed$', 'assert_eq!(blocks.len(), db_blocks.len()): ' + INV_MB + '; both sides are de-duplicated by hash (the stored record has one entry per matched FILTER with peer-chosen hashes: a repeated hash gives two entries, seeded C10-6)', ['call:Peers::all_matched_blocks_downloaded', 'operand:HashSet::len'])
 add(SYNC, r'^panic:panic$', 'assert!(db_blocks.contains(hash)): ' + INV_MB, ['call:Peers::all_matched_blocks_downloaded'])
 add(SYNC, r'^expect\(Storage::get_earliest_matched_blocks\(\.\.\)\)$', 'reached only when the in-memory map is non-empty: ' + INV_MB, ['call:HashMap::is_empty'])
 add(SYNC, r'^overflow\(\+\)\(start_number, blocks_count\)$', 'both values are read back from the stored MATCHED_BLOCKS record written by add_matched_blocks (store counters)')
